@@ -9,7 +9,31 @@ pub fn z(x: i128) -> String {
 pub fn n<T: std::fmt::Display>(x: T) -> String {
     format!("{}%N", x)
 }
+thread_local! {
+    static INTERN: std::cell::RefCell<std::collections::BTreeMap<Vec<u8>, usize>> = std::cell::RefCell::new(Default::default());
+}
+/// definitions of the interned byte strings (long literals are slow to type-check when repeated)
+pub fn interned_defs() -> String {
+    INTERN.with(|m| {
+        let mut v: Vec<(usize, Vec<u8>)> = m.borrow().iter().map(|(k, v)| (*v, k.clone())).collect();
+        v.sort();
+        v.iter()
+            .map(|(i, b)| format!("Definition bs{} : list N := {}.\n", i, bytes_lit(b)))
+            .collect()
+    })
+}
 pub fn bytes(b: &[u8]) -> String {
+    if b.len() < 6 {
+        return bytes_lit(b);
+    }
+    INTERN.with(|m| {
+        let mut m = m.borrow_mut();
+        let n = m.len();
+        let i = *m.entry(b.to_vec()).or_insert(n);
+        format!("bs{}", i)
+    })
+}
+pub fn bytes_lit(b: &[u8]) -> String {
     if b.is_empty() {
         return "[]".into();
     }
